@@ -600,10 +600,11 @@ void ExpressionBuilder::expr_dot(const char* id)
     } else if (type.is(PROCESS_VAR) && expr.get_symbol() != symbol_t()) {
         symbol_t uid;
         // temporarily set the frame to that of its associated template
-        if (dynamicFrames.find(expr.get_symbol().get_name()) == dynamicFrames.end()) {
+        auto dynamicFrame = dynamicFrames.find(expr.get_symbol().get_name());
+        if (dynamicFrame == dynamicFrames.end() || dynamicFrame->second.empty()) {
             throw UnknownIdentifierError(expr.get_symbol().get_name());
         }
-        push_frame(dynamicFrames[expr.get_symbol().get_name()]);
+        push_frame(dynamicFrame->second.back());
 
         if (!resolve(id, uid)) {
             expr_false();
@@ -1095,7 +1096,16 @@ void ExpressionBuilder::push_dynamic_frame_of(template_t* t, string name)
     if (!t->is_defined) {
         throw TypeException("Template referenced before used");
     }
-    dynamicFrames[name] = t->frame;
+    dynamicFrames[name].push_back(t->frame);
 }
 
-void ExpressionBuilder::pop_dynamic_frame_of(string name) { dynamicFrames.erase(name); }
+void ExpressionBuilder::pop_dynamic_frame_of(string name)
+{
+    // back to the enclosing binder of the same name, if there is one
+    if (auto it = dynamicFrames.find(name); it != dynamicFrames.end()) {
+        if (!it->second.empty())
+            it->second.pop_back();
+        if (it->second.empty())
+            dynamicFrames.erase(it);
+    }
+}
